@@ -31,6 +31,28 @@ theorem runOps_sim (h : Sim R I J) (ops : List Op) (s : σ) (t : τ) (hR : R s t
         subst he
         cases r <;> first | exact ⟨hr, rfl⟩ | exact ih s' t' hr
 
+theorem runAssigns_sim (h : Sim R I J) (sc : Scope) (ex : Bool) (as : List (Name × AVal)) (s : σ) (t : τ)
+    (hR : R s t) :
+    R (runAssigns I sc ex s as).1 (runAssigns J sc ex t as).1 ∧
+    (runAssigns I sc ex s as).2 = (runAssigns J sc ex t as).2 := by
+  induction as generalizing s t with
+  | nil => exact ⟨hR, rfl⟩
+  | cons p rest ih =>
+    obtain ⟨n, e⟩ := p
+    have he : evalA I s e = evalA J t e := by cases e <;> simp [evalA, h.get s t _ hR]
+    simp only [runAssigns, he]
+    obtain ⟨hr, hb⟩ := runOps_sim h (assignOps sc ex n (evalA J t e)) s t hR
+    cases hI : runOps I s (assignOps sc ex n (evalA J t e)) with
+    | mk s1 b =>
+      cases hJ : runOps J t (assignOps sc ex n (evalA J t e)) with
+      | mk t1 c =>
+        rw [hI, hJ] at hr hb
+        simp only at hr hb
+        subst hb
+        cases b
+        · exact ih s1 t1 hr
+        · exact ⟨hr, rfl⟩
+
 theorem expOf_sim (h : Sim R I J) (s : σ) (t : τ) (hR : R s t) : expOf I s = expOf J t := by
   simp only [expOf, h.get s t _ hR, h.params s t hR]
 
@@ -106,19 +128,30 @@ theorem execStmts_sim (h : Sim R I J) (funs : List (String × List Stmt)) :
         rw [expOf_sim h s' t' hr, vline_sim h _ s' t' hr]
         exact ih s' t' rest _ hr
       cases hact : stmtAction st with
-      | special ops =>
-        obtain ⟨hr, hb⟩ := runOps_sim h ops s t hR
+      | special as ops =>
+        obtain ⟨hr0, hb0⟩ := runAssigns_sim h .global false as s t hR
         simp only []
-        cases hI : runOps I s ops with
-        | mk s1 b =>
-          cases hJ : runOps J t ops with
-          | mk t1 c =>
-            rw [hI, hJ] at hr hb
-            simp only at hr hb
-            subst hb
-            cases b
-            · exact fin s1 t1 _ hr
-            · exact ⟨hr, rfl⟩
+        cases hI0 : runAssigns I .global false s as with
+        | mk s0 b0 =>
+          cases hJ0 : runAssigns J .global false t as with
+          | mk t0 c0 =>
+            rw [hI0, hJ0] at hr0 hb0
+            simp only at hr0 hb0
+            subst hb0
+            cases b0
+            · simp only []
+              obtain ⟨hr, hb⟩ := runOps_sim h ops s0 t0 hr0
+              cases hI : runOps I s0 ops with
+              | mk s1 b =>
+                cases hJ : runOps J t0 ops with
+                | mk t1 c =>
+                  rw [hI, hJ] at hr hb
+                  simp only at hr hb
+                  subst hb
+                  cases b
+                  · exact fin s1 t1 _ hr
+                  · exact ⟨hr, rfl⟩
+            · exact ⟨hr0, rfl⟩
       | ret => simp only []; exact ⟨hR, trivial⟩
       | bad => simp only []; exact ⟨hR, trivial⟩
       | typeset sc opts operands =>
@@ -137,11 +170,11 @@ theorem execStmts_sim (h : Sim R I J) (funs : List (String × List Stmt)) :
           rw [printLines_sim h b opts names _ _ hs1]
           exact fin s t _ hR
       | regular kind temps =>
-        obtain ⟨hr, hb⟩ := runOps_sim h ([Op.push .volatile] ++ tempOps temps) s t hR
+        obtain ⟨hr, hb⟩ := runAssigns_sim h .volatile true temps _ _ (h.step s t (.push .volatile) hR).1
         simp only []
-        cases hI : runOps I s ([Op.push .volatile] ++ tempOps temps) with
+        cases hI : runAssigns I .volatile true (I.step s (.push .volatile)).1 temps with
         | mk s1 b =>
-          cases hJ : runOps J t ([Op.push .volatile] ++ tempOps temps) with
+          cases hJ : runAssigns J .volatile true (J.step t (.push .volatile)).1 temps with
           | mk t1 c =>
             rw [hI, hJ] at hr hb
             simp only at hr hb
@@ -156,11 +189,11 @@ theorem execStmts_sim (h : Sim R I J) (funs : List (String × List Stmt)) :
         cases funs.lookup f with
         | none => exact ⟨hR, rfl⟩
         | some body =>
-          obtain ⟨hr, hb⟩ := runOps_sim h ([Op.push .volatile] ++ tempOps temps) s t hR
+          obtain ⟨hr, hb⟩ := runAssigns_sim h .volatile true temps _ _ (h.step s t (.push .volatile) hR).1
           simp only []
-          cases hI : runOps I s ([Op.push .volatile] ++ tempOps temps) with
+          cases hI : runAssigns I .volatile true (I.step s (.push .volatile)).1 temps with
           | mk s1 b =>
-            cases hJ : runOps J t ([Op.push .volatile] ++ tempOps temps) with
+            cases hJ : runAssigns J .volatile true (J.step t (.push .volatile)).1 temps with
             | mk t1 c =>
               rw [hI, hJ] at hr hb
               simp only at hr hb
